@@ -235,3 +235,67 @@ func init() {
 		NFact("update_upper_nosnapshot", upperConst("Update", 2, 1)),
 	)
 }
+
+// ---- `x != nil` versus `len(x) > 0` guards of the optional byte fields ----
+
+// guardIsNil reports whether recv.<fn> guards field with `m.field != nil`
+// (true) or with `len(m.field) > 0` (false); anything else is a panic, i.e. a
+// missing fact.
+func guardIsNil(recv, fn, field string) bool {
+	p := loadPkg("raftpb")
+	fd := p.Func(recv, fn)
+	found := ""
+	isField := func(e ast.Expr) bool {
+		se, ok := e.(*ast.SelectorExpr)
+		return ok && se.Sel.Name == field
+	}
+	ast.Inspect(fd.Body, func(n ast.Node) bool {
+		is, ok := n.(*ast.IfStmt)
+		if !ok {
+			return true
+		}
+		be, ok := is.Cond.(*ast.BinaryExpr)
+		if !ok {
+			return true
+		}
+		if be.Op == token.NEQ && isField(be.X) {
+			if id, ok := be.Y.(*ast.Ident); ok && id.Name == "nil" {
+				found += "n"
+			}
+		}
+		if be.Op == token.GTR {
+			if c, ok := be.X.(*ast.CallExpr); ok && len(c.Args) == 1 && isField(c.Args[0]) {
+				if id, ok := c.Fun.(*ast.Ident); ok && id.Name == "len" {
+					if lit, ok := be.Y.(*ast.BasicLit); ok && lit.Value == "0" {
+						found += "l"
+					}
+				}
+			}
+		}
+		return true
+	})
+	switch found {
+	case "n":
+		return true
+	case "l":
+		return false
+	}
+	panic(fmt.Sprintf("%s.%s: guard of field %s not recognised (%q)", recv, fn, field, found))
+}
+
+func init() {
+	u := units[len(units)-1]
+	for _, x := range [][3]string{
+		{"SnapshotFile", "Metadata", "sf_metadata"}, {"Snapshot", "Checksum", "sn_checksum"},
+		{"SnapshotHeader", "HeaderChecksum", "sh_header_checksum"},
+		{"SnapshotHeader", "PayloadChecksum", "sh_payload_checksum"}, {"Chunk", "Data", "ck_data"}} {
+		x := x
+		for _, fn := range [][2]string{{"MarshalTo", "marshal"}, {"Size", "size"}} {
+			fn := fn
+			name := x[2] + "_guard_nil_" + fn[1]
+			u.Facts = append(u.Facts, Fact{Name: name, Gen: func() string {
+				return defBool(name, guardIsNil(x[0], fn[0], x[1]))
+			}})
+		}
+	}
+}
